@@ -244,10 +244,55 @@ def b_str(it, args, kw, fr):
         return VStr(int_to_str(v.z), "str")
     if isinstance(v, VStr) and v.kind == "bytes" and len(args) >= 2:
         return decode_model(it, v, it.concrete(it.force(args[1])))
+    it.ctx.note_imprecise("str() of a value that is not str/int")
     return VStr(z3.String(it.ctx.namer("str")), "str")
 
 
+def str_format_model(it, s, args, kw, kind):
+    """'..{}..{0}..{name}..'.format(...) with str/int arguments and no conversions or format specs"""
+    import string as _string
+    cf = it.concrete(s)
+    if not isinstance(cf, str) or kind != "str":
+        return None
+    out, auto = [], 0
+    try:
+        fields = list(_string.Formatter().parse(cf))
+    except ValueError:
+        return None
+    for lit, name, spec, conv in fields:
+        if lit:
+            out.append(z3.StringVal(lit))
+        if name is None:
+            continue
+        if conv not in (None, "s") or spec not in ("", None, "d", "s"):
+            return None
+        if name == "":
+            idx = auto
+            auto += 1
+            v = args[idx] if idx < len(args) else None
+        elif name.isdigit():
+            v = args[int(name)] if int(name) < len(args) else None
+        else:
+            v = (kw or {}).get(name)
+        if v is None:
+            return None
+        v = it.force(v)
+        if isinstance(v, VStr) and v.kind == "str" and spec in ("", None, "s"):
+            out.append(v.z)
+        elif isinstance(v, VInt) and spec in ("", None, "d"):
+            out.append(int_to_str(v.z))
+        else:
+            return None
+    if not out:
+        return VStr(z3.StringVal(""), kind)
+    return VStr(out[0] if len(out) == 1 else z3.Concat(*out), kind)
+
+
 def b_repr(it, args, kw, fr):
+    v = it.force(args[0]) if args else None
+    if isinstance(v, VInt):
+        return VStr(int_to_str(v.z), "str")
+    it.ctx.note_imprecise("repr()")
     return VStr(z3.String(it.ctx.namer("repr")), "str")
 
 
@@ -769,6 +814,10 @@ def m_str(it, s, meth, args, kwargs):
             return VStr(f(s.z, seq.z), kind)
         raise OutOfSubset("join")
     if meth == "format":
+        r = str_format_model(it, s, a, kwargs, kind)
+        if r is not None:
+            return r
+        it.ctx.note_imprecise("str.format with an unmodelled field or argument")
         return VStr(z3.String(it.ctx.namer("format")), kind)
     if meth == "find":
         return VInt(z3.IndexOf(s.z, need_same(a[0]).z, 0))
